@@ -160,6 +160,15 @@ func (q *queue) resend() error {
 // returns true if the passed seq is an ACK for a packet we have sent but not
 // yet received an ACK for.
 func (q *queue) processACK(seq uint8) bool {
+	// Sequence numbers live in [0, s). Anything else cannot acknowledge a
+	// packet of ours and must not reach the window arithmetic below.
+	if seq >= q.cfg.s {
+		q.cfg.log.Tracef("Received ack %d outside of the sequence "+
+			"space %d. Ignoring.", seq, q.cfg.s)
+
+		return false
+	}
+
 	// If our queue is empty, an ACK should not have any effect.
 	if q.size() == 0 {
 		q.cfg.log.Tracef("Received ack %d, but queue is empty. "+
@@ -221,6 +230,15 @@ func (q *queue) processACK(seq uint8) bool {
 // the NACK sequence number. This equivalent to receiving the ACKs for the
 // packets before the NACK sequence number.
 func (q *queue) processNACK(seq uint8) (bool, bool) {
+	// Sequence numbers live in [0, s). A NACK for anything else would move
+	// the base of the window outside of the queue.
+	if seq >= q.cfg.s {
+		q.cfg.log.Tracef("Received NACK %d outside of the sequence "+
+			"space %d. Ignoring.", seq, q.cfg.s)
+
+		return false, false
+	}
+
 	q.baseMtx.Lock()
 	defer q.baseMtx.Unlock()
 
